@@ -1,6 +1,6 @@
 (* extract/Entry_E5c.v — entry points for the attribute inheritance model. *)
 From Coq Require Import ZArith QArith List Bool Ascii String.
-From Pico Require Import Num PyStr Value G_inherit Inherit.
+From Pico Require Import Num PyStr Value G_geom G_transform G_inherit Inherit Structure Entry_E1.
 Import ListNotations.
 Local Open Scope string_scope.
 
@@ -8,6 +8,13 @@ Definition aval_of (v : value) : @aval QOps := match v with VQ q => @ANum QOps q
 Definition amap_of (v : value) : @amap QOps := map (fun p => (getS (arg 0 p), aval_of (arg 1 p))) (getL v).
 Definition v_aval (a : @aval QOps) : value := match a with AStr s => VS s | ANum q => VQ q end.
 Definition v_amap (m : @amap QOps) : value := VL (map (fun p => VL [VS (fst p); v_aval (snd p)]) m).
+
+Fixpoint tnode_of (fuel : nat) (v : value) : @tnode QOps :=
+  match fuel with
+  | O => TN None []
+  | S f => TN (match arg 0 v with VL _ => Some (aff_of (arg 0 v)) | _ => None end) (map (tnode_of f) (getL (arg 1 v)))
+  end.
+Definition opt_aff (v : value) : option (Affine2D QOps) := match v with VL _ => Some (aff_of v) | _ => None end.
 
 Definition entry_E5c (orc : oracle) (name : string) (v : value) : option value :=
   if name =? "inherit_attrib" then
@@ -20,5 +27,11 @@ Definition entry_E5c (orc : oracle) (name : string) (v : value) : option value :
                           | Kept a => VL [VS "kept"; v_amap a]
                           end)
                 (try_remove_group (N:=QOps) (amap_of (arg 0 v)) (map (fun k => (getS (arg 0 k), amap_of (arg 1 k))) (getL (arg 1 v))) (getB (arg 2 v))))
+  else if name =? "traverse" then Some (VL (map v_aff (traverse (tnode_of 64 v))))
+  else if name =? "use_transform" then
+    Some (v_aff (element_transform (opt_aff (arg 3 v)) (use_transform (N:=QOps) (getQ (arg 0 v)) (getQ (arg 1 v)) (opt_aff (arg 2 v)))))
+  else if name =? "unnest_transform" then
+    Some (v_res v_aff (unnest_transform (N:=QOps) (getQ (arg 0 v)) (getQ (arg 1 v)) (getQ (arg 2 v)) (getQ (arg 3 v))
+                         (match arg 4 v with VL _ => Some (rect_of (arg 4 v)) | _ => None end) (getS (arg 5 v)) (opt_aff (arg 6 v))))
   else if name =? "inheritable_defaults" then Some (v_amap (inheritable_defaults (N:=QOps)))
   else None.
